@@ -12,6 +12,7 @@ from nptdms.utils import Timer
 from nptdms.base_segment import RawChannelDataChunk
 from nptdms.tdms_segment import TdmsSegment, SegmentIndexCache
 from nptdms.log import log_manager
+from nptdms import _verif
 
 
 log = log_manager.get_logger(__name__)
@@ -126,6 +127,16 @@ class TdmsReader(object):
                     self._update_object_properties(properties)
                     self._segments.append(segment)
                     previous_segment = segment
+                    if _verif.enabled():
+                        _verif.trace(
+                            "segment", position=segment.position, toc=segment.toc_mask,
+                            data_position=segment.data_position, next_segment_pos=segment.next_segment_pos,
+                            incomplete=bool(segment.segment_incomplete), num_chunks=int(segment.num_chunks),
+                            final_chunk_lengths=segment.final_chunk_lengths_override,
+                            objects=[
+                                [o.path, bool(o.has_data), int(o.number_values),
+                                 None if o.data_type is None else o.data_type.__name__, int(o.data_size)]
+                                for o in segment.ordered_objects])
 
                     segment_position = segment.next_segment_pos
                     if reading_index_file:
@@ -223,6 +234,11 @@ class TdmsReader(object):
 
                 num_chunks -= num_values_to_trim // chunk_size
 
+            if _verif.enabled():
+                _verif.trace(
+                    "channel_window", path=channel_path, offset=int(offset), length=int(length),
+                    segment_position=segment.position, chunk_offset=int(chunk_offset), num_chunks=int(num_chunks),
+                    skip=int(remaining_values_to_skip))
             for i, chunk in enumerate(
                     segment.read_raw_data_for_channel(self._file, channel_path, chunk_offset, num_chunks)):
                 skip = remaining_values_to_skip if i == 0 else 0
